@@ -714,6 +714,11 @@ pub fn recover(
             if packet.receiver != receiver.as_str() {
                 return Err(ContractError::InvalidReceiver {});
             }
+            // A packet can be recovered only once: a repeated id would be
+            // summed twice into the re-sent amount.
+            if packets.iter().any(|p| p.sequence == packet.sequence) {
+                return Err(ContractError::RecoverError {});
+            }
             packets.push(packet);
         }
         packets
